@@ -40,6 +40,9 @@ package transport
 //@   loop delegate: invariant tables: tablesOK(s) && s.virtualChordHandlers == old(s.virtualChordHandlers) && s.virtualChordHandlers != nil
 //@   at go dyn#1: assert stream-goes-to-the-virtual-nodes-handler-else-the-node-wide-one: ((hasVirtual(s, delegate.Kind, delegate.Identity.GetId()) && handler == virtualOf(s, delegate.Kind, delegate.Identity.GetId())) || (!hasVirtual(s, delegate.Kind, delegate.Identity.GetId()) && s.physicalChordHandlers.keys[any(delegate.Kind)] && handler == s.physicalChordHandlers.m[any(delegate.Kind)]))
 //@   at call Close#1: assert stream-is-closed-only-without-any-matching-handler: !hasVirtual(s, delegate.Kind, delegate.Identity.GetId()) && !s.physicalChordHandlers.keys[any(delegate.Kind)]
+//@   ghost lastCase int = -1
+//@   at after select#1: ghost lastCase := callresult0
+//@   ensures local-the-acceptor-stops-only-when-its-context-ends: lastCase == 0
 
 //@ func (s *StreamRouter) acceptTunnel(ctx context.Context)
 //@   safety off
@@ -47,3 +50,6 @@ package transport
 //@   requires s != nil
 //@   at go dyn#1: assert client-stream-goes-to-the-handler-of-its-type: s.tunnelHandlers.keys[any(delegate.Kind)] && handler == s.tunnelHandlers.m[any(delegate.Kind)]
 //@   at call Close#1: assert client-stream-is-closed-only-without-a-handler: !s.tunnelHandlers.keys[any(delegate.Kind)]
+//@   ghost lastCase int = -1
+//@   at after select#1: ghost lastCase := callresult0
+//@   ensures local-the-acceptor-stops-only-when-its-context-ends: lastCase == 0
